@@ -54,7 +54,7 @@ def draw_operator(st, tier, like=None, prefer_k2=False, structured_k3=False):
     n = d0 * d1
     rng = st.nprng()
     cplx = bool(st.draw(2))
-    kind = st.weighted([("density", 4), ("psd", 2), ("projection", 3), ("rank_one", 2), ("indefinite", 2), ("non_hermitian", 1), ("low_rank_psd", 2), ("ppt_edge", 1), ("hermitian_pq", 1), ("diagonal", 2), ("block_diagonal", 2), ("entangled_plus_identity", 1)])
+    kind = st.weighted([("density", 4), ("psd", 2), ("projection", 3), ("rank_one", 2), ("indefinite", 2), ("non_hermitian", 1), ("low_rank_psd", 2), ("ppt_edge", 1), ("hermitian_pq", 1), ("diagonal", 2), ("block_diagonal", 2), ("entangled_plus_identity", 1), ("noisy_low_schmidt", 2)])
     if like is not None and like.get("_want_low_ratio"):
         kind = "entangled_plus_identity"
     if kind == "ppt_edge" and like is not None:
@@ -100,8 +100,22 @@ def draw_operator(st, tier, like=None, prefer_k2=False, structured_k3=False):
     elif kind == "psd":
         g = gin(n, n)
         x = g @ g.conj().T * (0.1 + 5 * rng.random())
+    elif kind == "noisy_low_schmidt":
+        # (1 - eps) |v><v| + eps sigma with v of Schmidt rank 1..2 in random local bases: the weight sits on an
+        # eigenvector of low Schmidt rank, which is where the eigenvector-based analytic bounds are tight
+        r_v = 1 + st.draw(min(2, min(d0, d1)))
+        a, b = gin(d0, r_v), gin(d1, r_v)
+        v = sum(np.kron(a[:, [i]], b[:, [i]]) for i in range(r_v))
+        v = v / np.linalg.norm(v)
+        g = gin(n, n)
+        sigma = g @ g.conj().T
+        sigma = sigma / np.trace(sigma).real
+        eps = [0.02, 0.05, 0.1, 0.2, 0.3][st.draw(5)]
+        x = (1 - eps) * (v @ v.conj().T) + eps * sigma
     elif kind == "low_rank_psd":
         r = 2 + st.draw(max(1, n - 2))
+        if st.draw(2):
+            r = 2 + st.draw(2)  # ranks 2 and 3: the analytic eigenvector bounds are active
         g = gin(n, r)
         x = g @ g.conj().T
     elif kind == "projection":
